@@ -553,23 +553,32 @@ int main(int argc, char** argv)
     m.job("one/ptr", both, [](mc::Reporter& r) { job_one<PtrF>(r, 5, 8); });
     m.job("one/input", both, [](mc::Reporter& r) { job_one<InF>(r, 5, 8); });
     m.job("one/fwd", both, [](mc::Reporter& r) { job_one<FwdF>(r, 5, 8); });
+    m.job("sub/one/ptr", both, sub([](mc::Reporter& r) { job_one<PtrF>(r, 5, 8); }));
+    m.job("sub/one/input", both, sub([](mc::Reporter& r) { job_one<InF>(r, 5, 8); }));
+    m.job("sub/one/fwd", both, sub([](mc::Reporter& r) { job_one<FwdF>(r, 5, 8); }));
 #endif
 #if !defined(MC_PART) || MC_PART == 5
     m.job("one/bidi", both, [](mc::Reporter& r) { job_one<BidiF>(r, 5, 8); });
     m.job("one/ra", both, [](mc::Reporter& r) { job_one<RaF>(r, 5, 8); });
     m.job("one/rev", both, [](mc::Reporter& r) { job_one<RevF>(r, 5, 7); });
+    m.job("sub/one/bidi", both, sub([](mc::Reporter& r) { job_one<BidiF>(r, 5, 8); }));
+    m.job("sub/one/rev", both, sub([](mc::Reporter& r) { job_one<RevF>(r, 5, 7); }));
 #endif
 #if !defined(MC_PART) || MC_PART == 2
     m.job("two/ptr+ptr", both, [](mc::Reporter& r) { job_two<PtrF, PtrF>(r, 4, 4, 7, 5, 5, 4); });
     m.job("two/input+input", both, [](mc::Reporter& r) { job_two<InF, InF>(r, 4, 4, 7, 5, 5, 4); });
+    m.job("sub/two/ptr+ptr", both, sub([](mc::Reporter& r) { job_two<PtrF, PtrF>(r, 4, 4, 7, 5, 5, 4); }));
 #endif
 #if !defined(MC_PART) || MC_PART == 3
     m.job("two/fwd+fwd", both, [](mc::Reporter& r) { job_two<FwdF, FwdF>(r, 4, 4, 7, 5, 5, 4); });
     m.job("two/ra+ra", both, [](mc::Reporter& r) { job_two<RaF, RaF>(r, 4, 4, 7, 5, 5, 4); });
+    m.job("sub/two/fwd+fwd", both, sub([](mc::Reporter& r) { job_two<FwdF, FwdF>(r, 4, 4, 7, 5, 5, 4); }));
 #endif
 #if !defined(MC_PART) || MC_PART == 4
     m.job("two/input+fwd", both, [](mc::Reporter& r) { job_two<InF, FwdF>(r, 4, 3, 7, 4, 5, 4); });
     m.job("two/bidi+rev", both, [](mc::Reporter& r) { job_two<BidiF, RevF>(r, 4, 3, 7, 4, 5, 4); });
+    m.job("sub/two/input+fwd", both, sub([](mc::Reporter& r) { job_two<InF, FwdF>(r, 4, 3, 7, 4, 5, 4); }));
+    m.job("sub/two/bidi+rev", both, sub([](mc::Reporter& r) { job_two<BidiF, RevF>(r, 4, 3, 7, 4, 5, 4); }));
 #endif
 #endif
     return m.run();
